@@ -8,7 +8,7 @@ use crate::e2::{Res, StreamCase, StreamObs};
 use crate::e3::{Ev3, Mode, SchedCase, SchedObs, WakerPolicy};
 use crate::ent::BoxError;
 use crate::p_sched::{dfs, programs, sched_case_with_obs};
-use crate::p_serve::{c01_block, c01_n_blocks, long_body_block, long_body_n, c06_block, c06_n_blocks, c07_cases_for_tuple, c07_tuples, long_fault_cases, exec as exec_serve, replay_serve};
+use crate::p_serve::{c01_block, c01_n_blocks, long_body_block, long_body_n, c06_block, c06_n_blocks, c07_cases_for_tuple, c07_tuples, long_fault_cases, empty_entity_fault_cases, exec as exec_serve, replay_serve};
 use crate::p_stream::{c08_block, c08_n_blocks, c09_block, c09_n_blocks, c11_run_seq_block, c11_seq_space, replay as replay_stream};
 use crate::util::{hash64, norm_loc, Rng};
 use bytes::Bytes;
@@ -504,7 +504,7 @@ impl Prop for C20 {
         "fault_enumeration"
     }
     fn rule(&self, _: &Ctx) -> String {
-        "every body is polled k more times after its first terminal event (k = 3 for serve bodies, 2 for streaming sequences, 2 in schedules): all C07 fault cases (every chunking <= 4 chunks x fault kind x byte offset x 200 / single 206 / each multipart part => terminal kinds clean end, entity error, too-short, too-long; the same fault kinds late in bodies of 64 KiB .. 200 KB), the honest C01 and C06 workloads (clean end), the C08 / C09 / C11 op sequences (clean end, abort), abort programs under the scheduler. A poll after the terminal event that panics or yields data is a violation. Non-trivial = distinct case with >= 1 post-terminal poll judged".into()
+        "every body is polled k more times after its first terminal event (k = 3 for serve bodies, 2 for streaming sequences, 2 in schedules): all C07 fault cases (every chunking <= 4 chunks x fault kind x byte offset x 200 / single 206 / each multipart part => terminal kinds clean end, entity error, too-short, too-long; entity streams that panic instead of failing (judged only if the body reports an error rather than propagating the panic); the same fault kinds late in bodies of 64 KiB .. 200 KB), the honest C01 and C06 workloads (clean end), the C08 / C09 / C11 op sequences (clean end, abort), abort programs under the scheduler. A poll after the terminal event that panics or yields data is a violation. Non-trivial = distinct case with >= 1 post-terminal poll judged".into()
     }
     fn n_blocks(&self, ctx: &Ctx) -> usize {
         let t = if ctx.leg.slow() { 40 } else { c07_tuples().len() };
@@ -524,11 +524,23 @@ impl Prop for C20 {
             for mut c in c07_cases_for_tuple(t, slow) {
                 c.extra_polls = 4;
                 exec_serve(&c, sink, &c20_serve_judge);
+                // the same with the entity stream panicking instead of returning an error: if the
+                // body turns that into an error (it need not), the error is terminal like any other
+                if matches!(c.ent.fault, Some(crate::ent::Fault { kind: crate::ent::FaultKind::Err, .. })) {
+                    if let Some(f) = c.ent.fault.as_mut() {
+                        f.kind = crate::ent::FaultKind::Panic;
+                    }
+                    exec_serve(&c, sink, &c20_serve_judge);
+                    sink.count("entity_panic_cases");
+                }
             }
             if k == 0 {
                 for c in long_fault_cases(slow) {
                     exec_serve(&c, sink, &c20_serve_judge);
                     sink.count("long_body_fault_cases");
+                }
+                for c in empty_entity_fault_cases() {
+                    exec_serve(&c, sink, &c20_serve_judge);
                 }
             }
             return;
